@@ -35,7 +35,7 @@ say "suite on seeded tree: $SUM"
 say "suite failures/timeouts: ${FAILS:-none}  (baseline always_fail: test_div_extension test_cyclic_recursion test_recursive_recursive_verifier test_recursive_verifier test_recursive_verifier_one_lookup)"
 # 4. the checks
 for c in $CHECKS; do
-  RUN_ON_TREE_TARGET=/tmp/seed-check.target /verif/tools/run_on_tree.sh "$WT" "$c" --tier quick >"$DST/check_$c.log" 2>&1; R=$?
+  RUN_ON_TREE_TARGET=${SEED_CHECK_TARGET:-/tmp/seed-check.target} /verif/tools/run_on_tree.sh "$WT" "$c" --tier quick >"$DST/check_$c.log" 2>&1; R=$?
   say "check $c on seeded tree: exit=$R; $(grep -c '^VIOLATION' "$DST/check_$c.log") VIOLATION line(s); first: $(grep '^VIOLATION' "$DST/check_$c.log" | head -1 | cut -c1-260)"
 done
 git -C "$WT" checkout -q -- . ; git -C "$WT" clean -fdq -e target -e .verif-out
